@@ -343,4 +343,11 @@ def r04_valid(ctx):
     ctx.borrow(c01.r01_1, 'R04.7')
 
 
-RULES = [('R04.7', r04_valid), ('R04.6', r04_decode), ('R04-transitions', r04_transitions), ('R04-init', r04_init), ('R04-guard', r04_guard), ('R04.5', r04_parser)]
+def r04_silent(ctx):
+    """Stray and undefined bytes are skipped *silently*, and feeding never raises for bytes in range: the byte handlers call
+    nothing but their own helpers (no warnings, logging, callbacks or clocks - with warnings turned into errors a
+    `warnings.warn` is a raise in the middle of a chunk).  The purity audit of C05 R05.2, run under this property's name."""
+    parsershape.check_purity(ctx, 'R04.8')
+
+
+RULES = [('R04.8', r04_silent), ('R04.7', r04_valid), ('R04.6', r04_decode), ('R04-transitions', r04_transitions), ('R04-init', r04_init), ('R04-guard', r04_guard), ('R04.5', r04_parser)]
